@@ -1252,7 +1252,7 @@ def nontrivial_msg(nheaders, body):
 
 def oracle_requests(ctx):
     rng = ctx.sub_rng("oracle-req")
-    n = ctx.scale(2500, 40000)
+    n = ctx.scale(2500, 100000)
     nt = 0
     for i in range(n):
         E = rand_env(rng, wellformed=True)
@@ -1346,7 +1346,7 @@ def api_request_case(case):
 
 def oracle_responses(ctx):
     rng = ctx.sub_rng("oracle-resp")
-    n = ctx.scale(2500, 40000)
+    n = ctx.scale(2500, 100000)
     nt = 0
     for i in range(n):
         st, hl, body = rand_resp(rng)
@@ -1407,7 +1407,7 @@ def valid_script(call, items):
 
 def oracle_scripts(ctx):
     rng = ctx.sub_rng("oracle-app")
-    n = ctx.scale(2500, 40000)
+    n = ctx.scale(2500, 100000)
     nt = 0
     for _ in range(n):
         s = rand_script(rng)
